@@ -590,8 +590,8 @@ func stringCanon(real any) string {
 func c16Case(c *fw.Ctx, tree *spec.Spec, r *rng.R) {
 	noteTree(c, tree)
 	real := buildOrGiven(r, tree)
+	before := stringCanon(real) // (taken through the harness's own walker before anything is printed)
 	plain := stringOf(real)
-	before := stringCanon(real)
 	// what a call returned stays what it was while later calls run: every output is kept next to a private copy of its bytes
 	type keptOutput struct {
 		indent     int
